@@ -20,6 +20,15 @@ Proof. intros Q. split; [exact (qt_now _ _ Q) | exact (qt_conf _ _ Q)]. Qed.
 Lemma hg_hok s o : hg s o -> hok 0 ND s o.
 Proof. intros (ob & Ho & _). split; [lia | exists ob; split; [exact Ho | intros []]]. Qed.
 
+(* the object at index o is a session's record, not a replaced-ID record *)
+Definition nr (s : st) (o : nat) : Prop := exists ob, hget s o = Some ob /\ r_ref (o_rec ob) = None.
+
+Lemma hg_nr s o : hg s o -> nr s o.
+Proof. intros (ob & Ho & Hr & _). exists ob. auto. Qed.
+
+Lemma nr_heap s s' o : heap s' = heap s -> nr s o -> nr s' o.
+Proof. intros E (ob & Ho & Hr). exists ob. unfold hget in *. rewrite E. auto. Qed.
+
 Lemma hupd_plan s o f : plan (hupd s o f) = plan s.
 Proof. unfold hupd. destruct (hget s o); reflexivity. Qed.
 
@@ -226,7 +235,7 @@ Section Rider.
 
   Lemma do_sop_G base s o hc op : G base s -> hg s o ->
     (op = SDestroy -> forall ob, hget s o = Some ob -> DEL s (o_id ob)) ->
-    exists s' r cks, do_sop s o hc op = (s', r, cks) /\ G base s' /\ nc s s' /\ (op <> SDestroy -> hg s' o).
+    exists s' r cks, do_sop s o hc op = (s', r, cks) /\ G base s' /\ nc s s' /\ (op <> SDestroy -> hg s' o) /\ nr s' o.
   Proof.
     intros Hg Hh Hd. pose proof Hg as (I & K & P & Hq). pose proof Hh as (ob & Ho & Hr & Hs).
     assert (Hp : plan s = []) by apply (i_plan _ _ _ _ _ I).
@@ -246,8 +255,8 @@ Section Rider.
     - unfold data_of. rewrite Ho. destruct (r_data (o_rec ob)) as [d|].
       + destruct (Hupd (fun r => set_data r (Some (kv_set d k v))) (fun _ => eq_refl)) as (G1 & Q1 & H1).
         destruct (Hsave _ G1 Q1 H1) as (s' & E & G' & N' & H'). rewrite E.
-        do 3 eexists. split; [reflexivity|]. split; [exact G'|]. split; [exact N' | intros _; exact H'].
-      + do 3 eexists. split; [reflexivity|]. split; [exact Hg|]. split; [apply nc_refl | intros _; exact Hh].
+        do 3 eexists. split; [reflexivity|]. split; [exact G'|]. split; [exact N' | split; [intros _; exact H' | apply hg_nr; exact H']].
+      + do 3 eexists. split; [reflexivity|]. split; [exact Hg|]. split; [apply nc_refl | split; [intros _; exact Hh | apply hg_nr; exact Hh]].
     - unfold data_of. rewrite Ho.
       assert (Hx : exists s1, (match r_data (o_rec ob) with
                                | Some d => hupd s o (fun r => set_data r (Some (kv_del d k)))
@@ -258,25 +267,26 @@ Section Rider.
         - exists s. split; [reflexivity|]. split; [exact Hg|]. split; [apply qt_refl | exact Hh]. }
       destruct Hx as (s1 & -> & G1 & Q1 & H1).
       destruct (Hsave _ G1 Q1 H1) as (s' & E & G' & N' & H'). rewrite E.
-      do 3 eexists. split; [reflexivity|]. split; [exact G'|]. split; [exact N' | intros _; exact H'].
-    - do 3 eexists. split; [reflexivity|]. split; [exact Hg|]. split; [apply nc_refl | intros _; exact Hh].
+      do 3 eexists. split; [reflexivity|]. split; [exact G'|]. split; [exact N' | split; [intros _; exact H' | apply hg_nr; exact H']].
+    - do 3 eexists. split; [reflexivity|]. split; [exact Hg|]. split; [apply nc_refl | split; [intros _; exact Hh | apply hg_nr; exact Hh]].
     - unfold data_of. rewrite Ho. destruct (r_data (o_rec ob)) as [d|].
       + destruct (kv_get d k).
         * destruct (Hupd (fun r => set_data r (Some (kv_del d k))) (fun _ => eq_refl)) as (G1 & Q1 & H1).
-          do 3 eexists. split; [reflexivity|]. split; [exact G1|]. split; [apply nc_qt; exact Q1 | intros _; exact H1].
-        * do 3 eexists. split; [reflexivity|]. split; [exact Hg|]. split; [apply nc_refl | intros _; exact Hh].
-      + do 3 eexists. split; [reflexivity|]. split; [exact Hg|]. split; [apply nc_refl | intros _; exact Hh].
+          do 3 eexists. split; [reflexivity|]. split; [exact G1|]. split; [apply nc_qt; exact Q1 | split; [intros _; exact H1 | apply hg_nr; exact H1]].
+        * do 3 eexists. split; [reflexivity|]. split; [exact Hg|]. split; [apply nc_refl | split; [intros _; exact Hh | apply hg_nr; exact Hh]].
+      + do 3 eexists. split; [reflexivity|]. split; [exact Hg|]. split; [apply nc_refl | split; [intros _; exact Hh | apply hg_nr; exact Hh]].
     - destruct (login_G _ _ _ u ex Hg Hh) as (s' & n & E & G' & N' & H'). rewrite E.
-      do 3 eexists. split; [reflexivity|]. split; [exact G'|]. split; [exact N' | intros _; exact H'].
+      do 3 eexists. split; [reflexivity|]. split; [exact G'|]. split; [exact N' | split; [intros _; exact H' | apply hg_nr; exact H']].
     - destruct (logout_inv _ _ _ _ _ I (hg_hok _ _ Hh)) as (s' & E & I' & _).
       destruct (logout_qt s o Hp K (hg_sc _ _ Hh)) as [Q1 K1]. rewrite E in *. cbn [fst] in *.
       do 3 eexists. split; [reflexivity|]. split; [eapply G_qt; eassumption|].
-      split; [apply nc_qt; exact Q1 | intros _; eapply hg_qt; eassumption].
+      split; [apply nc_qt; exact Q1 | split; [intros _; eapply hg_qt; eassumption | apply hg_nr; eapply hg_qt; eassumption]].
     - destruct (regenerate_G _ _ _ Hg Hh) as (s' & E & G' & N' & H'). rewrite E.
-      do 3 eexists. split; [reflexivity|]. split; [exact G'|]. split; [exact N' | intros _; exact H'].
+      do 3 eexists. split; [reflexivity|]. split; [exact G'|]. split; [exact N' | split; [intros _; exact H' | apply hg_nr; exact H']].
     - rewrite (destroy_ff _ _ _ _ Hp Ho).
-      destruct (cdel_G _ _ (o_id ob) Hg (Hd eq_refl ob Ho)) as (G' & N' & _).
-      do 3 eexists. split; [reflexivity|]. split; [exact G'|]. split; [exact N' | intros Hne; contradiction].
+      destruct (cdel_G _ _ (o_id ob) Hg (Hd eq_refl ob Ho)) as (G' & N' & _ & Hheap).
+      do 3 eexists. split; [reflexivity|]. split; [exact G'|]. split; [exact N'|]. split; [intros Hne; contradiction|].
+      eapply nr_heap; [exact Hheap | apply hg_nr; exact Hh].
   Qed.
 
   (* ---------------------------------------------------------------- scripts *)
@@ -286,25 +296,27 @@ Section Rider.
 
   Lemma run_script_G base hc : forall ops s o, G base s -> hg s o -> FOK (now s) -> dperm o ops ->
     exists s' rs cks, run_script s o hc ops = (s', rs, cks) /\ G base s' /\ nc s s' /\
-      (~ In SDestroy (firstn (length rs) ops) -> hg s' o).
+      (~ In SDestroy (firstn (length rs) ops) -> hg s' o) /\ nr s' o.
   Proof.
     induction ops as [|op t IH]; intros s o Hg Hh Hf Hd; cbn [run_script].
-    - do 3 eexists. split; [reflexivity|]. split; [exact Hg|]. split; [apply nc_refl | intros _; exact Hh].
-    - destruct (do_sop_G base s o hc op Hg Hh) as (s1 & r & cks & E & G1 & N1 & H1).
+    - do 3 eexists. split; [reflexivity|]. split; [exact Hg|]. split; [apply nc_refl | split; [intros _; exact Hh | apply hg_nr; exact Hh]].
+    - destruct (do_sop_G base s o hc op Hg Hh) as (s1 & r & cks & E & G1 & N1 & H1 & R1).
       { intros -> ob Ho. destruct Hh as (ob' & Ho' & _ & Hs). rewrite Ho in Ho'. injection Ho' as <-.
         apply (Hd (or_introl eq_refl) s ob); [apply Hg | exact Ho | exact Hs]. }
       rewrite E. destruct N1 as [Nn Nc].
       destruct (fire_due_G _ _ G1) as (G2 & N2 & H2 & _); [rewrite Nn; exact Hf|].
+      assert (R2 : nr (fire_due s1) o).
+      { eapply nr_heap; [|exact R1]. destruct G1 as (I1 & _). apply (HistInv3.fire_due_inv _ _ _ _ I1). }
       assert (N12 : nc s (fire_due s1)) by (eapply nc_trans; [split; eassumption | exact N2]).
       match goal with |- context [if ?c then _ else _] => destruct c eqn:Estop end.
       + do 3 eexists. split; [reflexivity|]. split; [exact G2|]. split; [exact N12|].
-        cbn [length firstn]. intro Hn. apply H2. apply H1. intros ->. apply Hn. left. reflexivity.
+        split; [|exact R2]. cbn [length firstn]. intro Hn. apply H2. apply H1. intros ->. apply Hn. left. reflexivity.
       + assert (Hop : op <> SDestroy) by (intros ->; discriminate).
-        destruct (IH (fire_due s1) o G2 (H2 o (H1 Hop))) as (s' & rs & cks' & E' & G' & N' & H').
+        destruct (IH (fire_due s1) o G2 (H2 o (H1 Hop))) as (s' & rs & cks' & E' & G' & N' & H' & R').
         { destruct N12 as [-> _]. exact Hf. }
         { intros Hin. apply Hd. right. exact Hin. }
         rewrite E'. do 3 eexists. split; [reflexivity|]. split; [exact G'|].
-        split; [eapply nc_trans; eassumption|]. cbn [length firstn]. intro Hn. apply H'. intro Hin. apply Hn. right. exact Hin.
+        split; [eapply nc_trans; eassumption|]. split; [|exact R']. cbn [length firstn]. intro Hn. apply H'. intro Hin. apply Hn. right. exact Hin.
   Qed.
 
   (* ----------------------------------------------------------- request body *)
@@ -313,19 +325,113 @@ Section Rider.
     (forall k s' res cks, q_cookie q = CKey k -> start s q = (s', res, cks) ->
        In CkDelete cks \/ res = Err EExpiredID -> forall s1, qt s s1 -> Q s1 -> DEL s1 k) ->
     (forall o, dperm o script) ->
-    exists s3 rc st0 sr fin cks, req_body s q script = (s3, rc, st0, sr, fin, cks) /\ G base s3 /\ nc s s3.
+    exists s3 rc st0 sr fin cks, req_body s q script = (s3, rc, st0, sr, fin, cks) /\ G base s3 /\ nc s s3 /\
+      (forall k r, st0 = Some (k, r) -> r_ref r = None) /\ (forall k r, fin = Some (k, r) -> r_ref r = None).
   Proof.
     intros Hg Hf Hdel Hdp. unfold req_body.
     destruct (start_G base s q Hg Hdel) as (s2 & res & cks & E & G2 & N2 & H2). rewrite E.
     destruct (fire_due_G _ _ G2) as (G3 & N3 & H3 & _); [destruct N2 as [-> _]; exact Hf|].
     assert (N23 : nc s (fire_due s2)) by (eapply nc_trans; eassumption).
     destruct res as [[o|]|e|e].
-    - destruct (run_script_G base (had_cookie q) script (fire_due s2) o G3 (H3 o (H2 o eq_refl))) as (s3 & rs & cks' & E' & G' & N' & _).
+    - destruct (run_script_G base (had_cookie q) script (fire_due s2) o G3 (H3 o (H2 o eq_refl))) as (s3 & rs & cks' & E' & G' & N' & _ & R').
       { destruct N23 as [-> _]. exact Hf. }
       { apply Hdp. }
-      cbv zeta. rewrite E'. do 6 eexists. split; [reflexivity|]. split; [exact G' | eapply nc_trans; eassumption].
-    - do 6 eexists. split; [reflexivity|]. split; assumption.
-    - do 6 eexists. split; [reflexivity|]. split; assumption.
-    - do 6 eexists. split; [reflexivity|]. split; assumption.
+      cbv zeta. rewrite E'. do 6 eexists. split; [reflexivity|]. split; [exact G'|]. split; [eapply nc_trans; eassumption|].
+      split; intros k r Hv; unfold handle_view in Hv.
+      + destruct (hg_nr _ _ (H3 o (H2 o eq_refl))) as (ob & Ho & Hr). rewrite Ho in Hv. injection Hv as _ <-. exact Hr.
+      + destruct R' as (ob & Ho & Hr). rewrite Ho in Hv. injection Hv as _ <-. exact Hr.
+    - do 6 eexists. split; [reflexivity|]. split; [assumption|]. split; [assumption|]. split; intros; discriminate.
+    - do 6 eexists. split; [reflexivity|]. split; [assumption|]. split; [assumption|]. split; intros; discriminate.
+    - do 6 eexists. split; [reflexivity|]. split; [assumption|]. split; [assumption|]. split; intros; discriminate.
+  Qed.
+  (* ------------------------------------------------------------ whole steps *)
+
+  (* the invariant between steps (the event log is cut at every step) *)
+  Definition GW (s : st) : Prop := winv 0 ND s /\ Kcs s /\ PRs s /\ Q s.
+
+  Lemma GW_G s pl t : GW s -> pl = [] -> G (supply s, []) (set_tb (set_plan (set_evs s []) pl) t).
+  Proof.
+    intros (W & K & P & Hq) ->. split; [apply inv_of_winv; exact W|].
+    assert (Qt : qt s (set_tb (set_plan (set_evs s []) []) t)) by (apply qt_same; reflexivity).
+    split; [eapply Kcs_same; [| | |exact K]; reflexivity|]. split; [eapply PRs_qt; eassumption | eapply Q_qt; eassumption].
+  Qed.
+
+  Lemma G_GW base s t : G base s -> GW (set_tb (set_plan s []) t).
+  Proof.
+    intros (I & K & P & Hq). split; [eapply winv_of_inv; exact I|].
+    assert (Qt : qt s (set_tb (set_plan s []) t)) by (apply qt_same; reflexivity).
+    split; [eapply Kcs_same; [| | |exact K]; reflexivity|]. split; [eapply PRs_qt; eassumption | eapply Q_qt; eassumption].
+  Qed.
+
+  Lemma G_GW' base s : G base s -> GW s.
+  Proof. intros (I & K & P & Hq). split; [eapply winv_of_inv'; exact I | auto]. Qed.
+
+  (* what the client of a request step presents, and the request Start sees *)
+  Definition presents (w : world) (r : reqstep) : cval :=
+    match rq_present r with PJar => jar_of (w_jars w) (rq_client r) | PForge c => c end.
+  Definition req_of (w : world) (r : reqstep) : request :=
+    mkReq (presents w r) (rq_create r) (rq_addr r) (rq_ua r).
+  Definition pre_of (w : world) (r : reqstep) : st :=
+    set_tb (set_plan (set_evs (w_st w) []) (rq_plan r)) (rq_tb r).
+
+  Lemma step_req_GW w r : GW (w_st w) -> rq_plan r = [] -> rq_crash r = None -> FOK (now (w_st w)) ->
+    (forall k s' res cks, presents w r = CKey k -> start (pre_of w r) (req_of w r) = (s', res, cks) ->
+       In CkDelete cks \/ res = Err EExpiredID -> forall s1, qt (pre_of w r) s1 -> Q s1 -> DEL s1 k) ->
+    (forall o, dperm o (rq_script r)) ->
+    GW (w_st (fst (step w (HReq r)))) /\ nc (w_st w) (w_st (fst (step w (HReq r)))) /\
+    (forall k rc, ob_start (snd (step w (HReq r))) = Some (k, rc) -> r_ref rc = None) /\
+    (forall k rc, ob_final (snd (step w (HReq r))) = Some (k, rc) -> r_ref rc = None).
+  Proof.
+    intros Hw Hpl Hcr Hf Hdel Hdp. rewrite step_req_eq. cbv zeta.
+    change (match rq_present r with PJar => jar_of (w_jars w) (rq_client r) | PForge c => c end) with (presents w r).
+    change (mkReq (presents w r) (rq_create r) (rq_addr r) (rq_ua r)) with (req_of w r).
+    change (set_tb (set_plan (set_evs (w_st w) []) (rq_plan r)) (rq_tb r)) with (pre_of w r).
+    pose proof (GW_G (w_st w) (rq_plan r) (rq_tb r) Hw Hpl) as G1. fold (pre_of w r) in G1.
+    destruct (req_body_G _ (pre_of w r) (req_of w r) (rq_script r) G1 Hf Hdel Hdp) as (s3 & rc & st0 & sr & fin & cks & E & G3 & N3 & Hst & Hfin).
+    rewrite E, Hcr. cbn [fst snd w_st mk_obs ob_start ob_final]. split; [eapply G_GW; exact G3|]. split; [exact N3|]. split; assumption.
+  Qed.
+
+  Definition gen_hop (h : hop) : Prop :=
+    match h with HPurge _ _ | HDropCache | HLogoutUser _ _ _ | HRefreshUser _ _ _ => True | _ => False end.
+
+  Lemma step_gen_GW w h : GW (w_st w) -> ff_hop h -> gen_hop h -> FOK (now (w_st w)) ->
+    GW (w_st (fst (step w h))) /\ nc (w_st w) (w_st (fst (step w h))).
+  Proof.
+    intros Hw Hff Hgen Hf. destruct h as [r|d|tbl pl| | |u tbl pl|u tbl pl|c]; cbn [gen_hop ff_hop] in *; try contradiction.
+    - subst pl. cbn [step fst w_st].
+      pose proof (GW_G (w_st w) [] tbl Hw eq_refl) as G1. pose proof G1 as (I1 & K1 & _).
+      destruct (purge_qt _ (inv_ffnd _ _ _ _ _ I1) K1) as [Q2 K2].
+      assert (G2 : G (supply (w_st w), []) (purge (set_tb (set_plan (set_evs (w_st w) []) []) tbl))).
+      { eapply G_qt; [apply inv_purge; exact I1 | exact K2 | exact Q2 | exact G1]. }
+      split; [eapply G_GW; exact G2|].
+      split; cbn [now conf set_tb set_plan]; [rewrite (qt_now _ _ Q2) | rewrite (qt_conf _ _ Q2)]; reflexivity.
+    - cbn [step fst w_st]. pose proof (GW_G (w_st w) [] [] Hw eq_refl) as G1. pose proof G1 as (I1 & K1 & _).
+      assert (Qt : qt (w_st w) (set_cache (set_evs (w_st w) []) [])) by (apply qt_same; reflexivity).
+      destruct Hw as (W & K & P & Hq).
+      split; [|apply nc_qt; exact Qt]. split; [|split; [|split; [eapply PRs_qt; eassumption | eapply Q_qt; eassumption]]].
+      + eapply winv_of_inv'. apply inv_set_cache_nil. exact W.
+      + intros k o ob Hl. discriminate.
+    - subst pl. cbn [step].
+      pose proof (GW_G (w_st w) [] tbl Hw eq_refl) as G1. pose proof G1 as (I1 & K1 & _).
+      destruct (logout_user_inv _ _ _ _ u I1) as (s1 & E & I2 & _).
+      destruct (logout_user_qt _ _ _ _ u I1 K1) as [Q2 K2]. rewrite E in *. cbn [fst snd w_st] in *.
+      assert (G2 : G (supply (w_st w), []) s1) by (eapply G_qt; eassumption).
+      assert (G3' : G (supply (w_st w), []) (set_tb (set_plan s1 []) [])).
+      { pose proof G2 as (I & K & P & Hq). assert (Qt : qt s1 (set_tb (set_plan s1 []) [])) by (apply qt_same; reflexivity).
+        eapply G_qt; [apply inv_set_tb; apply inv_set_plan_nil; exact I | eapply Kcs_same; [| | |exact K]; reflexivity | exact Qt | exact G2]. }
+      destruct (fire_due_G _ _ G3') as (G4 & N4 & _); [cbn [now set_tb set_plan]; rewrite (qt_now _ _ Q2); exact Hf|].
+      split; [eapply G_GW'; exact G4|]. destruct N4 as [Nn Nc].
+      split; [rewrite Nn | rewrite Nc]; cbn [now conf set_tb set_plan]; [rewrite (qt_now _ _ Q2) | rewrite (qt_conf _ _ Q2)]; reflexivity.
+    - subst pl. cbn [step].
+      pose proof (GW_G (w_st w) [] tbl Hw eq_refl) as G1. pose proof G1 as (I1 & K1 & _).
+      destruct (refresh_user_inv _ _ _ _ u I1) as (s1 & E & I2 & _).
+      destruct (refresh_user_qt _ _ _ _ u I1 K1) as [Q2 K2]. rewrite E in *. cbn [fst snd w_st] in *.
+      assert (G2 : G (supply (w_st w), []) s1) by (eapply G_qt; eassumption).
+      assert (G3' : G (supply (w_st w), []) (set_tb (set_plan s1 []) [])).
+      { pose proof G2 as (I & K & P & Hq). assert (Qt : qt s1 (set_tb (set_plan s1 []) [])) by (apply qt_same; reflexivity).
+        eapply G_qt; [apply inv_set_tb; apply inv_set_plan_nil; exact I | eapply Kcs_same; [| | |exact K]; reflexivity | exact Qt | exact G2]. }
+      destruct (fire_due_G _ _ G3') as (G4 & N4 & _); [cbn [now set_tb set_plan]; rewrite (qt_now _ _ Q2); exact Hf|].
+      split; [eapply G_GW'; exact G4|]. destruct N4 as [Nn Nc].
+      split; [rewrite Nn | rewrite Nc]; cbn [now conf set_tb set_plan]; [rewrite (qt_now _ _ Q2) | rewrite (qt_conf _ _ Q2)]; reflexivity.
   Qed.
 End Rider.
